@@ -22,7 +22,7 @@ ANCHORS = ["decaylanguage.decay.viewer:DecayChainViewer._build_decay_graph", "de
 WORKERS = {"quick": 4, "thorough": 16}
 REQUIRED = {"line-without-daughters": 5, "branching-fraction-zero": 10, "table>=4-lines-distinct-bf": 20, "leaf-line-daughters-unsorted": 20, "repeated-decaying-daughter": 10, "empty-table-daughter": 10,
             "from-class-representation": 10, "evtgen-specific-name": 20, "alias-or-unknown-name": 20, "depth>=3": 10, "daughters>=5-in-ported-node": 5,
-            "graphs-in-one-process>=3": 1, "same-lists-in-both-node-roles": 10, "dot-accepted": 50}
+            "graphs-in-one-process>=3": 1, "same-lists-in-both-node-roles": 10, "two-lines-same-daughters-same-bf": 5, "dot-accepted": 50}
 ASSUMPTIONS = ["Graphviz `dot` and the particle package's LaTeX->HTML name conversion are trusted", "labels contain no '<' or '&' (label alphabet)",
                "the root identifier 'mother' is per graph; uniqueness across graphs is required of the per-line nodes"]
 
@@ -219,6 +219,13 @@ def run(ctx):
                     for ln in st["lines"]:
                         if r.random() < 0.3:
                             ln["bf"] = r.choice(["0", "0.0000", "0.0"])
+        if i % 4 == 1:
+            for st in stmts:
+                if st["k"] == "Decay" and st["lines"] and r.random() < 0.5:
+                    twin = dict(r.choice(st["lines"]))
+                    twin["model"], twin["params"] = "PHSP", []
+                    st["lines"].insert(r.randrange(len(st["lines"]) + 1), twin)     # same daughters, same bf, another model: still its own line
+                    ctx.hit("two-lines-same-daughters-same-bf")
         text = L.render(stmts)
         ok, res = ctx.guard("parse", {"kind": "graph", "text": text}, snapshot.make_parser, text)
         if not ok:
